@@ -55,13 +55,17 @@ func NewWith(convert StructOptions, value interface{}) Value {
 	}
 
 	if v.Type() == timeType {
-		return String(v.Interface().(time.Time).Format(convert.TimeFormat))
+		var format = convert.TimeFormat
+		if format == "" {
+			format = time.RFC3339 // ISO-8601, as the option documents.
+		}
+		return String(v.Interface().(time.Time).Format(format))
 	}
 
 	switch v.Kind() {
 	case reflect.Int, reflect.Int8, reflect.Int16, reflect.Int32, reflect.Int64:
 		return Int(v.Int())
-	case reflect.Uint, reflect.Uint8, reflect.Uint16, reflect.Uint32, reflect.Uint64:
+	case reflect.Uint, reflect.Uint8, reflect.Uint16, reflect.Uint32, reflect.Uint64, reflect.Uintptr:
 		// Int is signed: a larger unsigned value would wrap around to a negative
 		// one. It becomes the nearest Float instead.
 		if u := v.Uint(); u > math.MaxInt64 {
@@ -74,8 +78,8 @@ func NewWith(convert StructOptions, value interface{}) Value {
 		return Bool(v.Bool())
 	case reflect.String:
 		return String(v.String())
-	case reflect.Slice:
-		if v.IsNil() {
+	case reflect.Slice, reflect.Array:
+		if v.Kind() == reflect.Slice && v.IsNil() {
 			return List(nil)
 		}
 		slice := make(List, v.Len())
